@@ -4,7 +4,7 @@
 id=$1; dir=$2; name=${3:-$id}
 cd $dir || exit 2
 [ -f _mutation/patch.diff ] || { echo "$id: no patch"; exit 2; }
-git stash -q -- Lib 2>/dev/null; git checkout -q -- Lib
+git checkout -q -- Lib
 # baseline: demo passes without the change
 (./_mutation/run_demo.sh >/tmp/seed_$id.base.log 2>&1); base=$?
 git apply _mutation/patch.diff || { echo "$id: patch does not apply"; exit 2; }
